@@ -77,6 +77,24 @@ def contract(module, qual, params, modifies=(), raises=(), kind="function", cls=
     return deco
 
 
+def lemma(name, params, param_types=None, note=None):
+    """Class decorator: a lemma over spec functions only (no code).  The class body holds `requires(...)` and one or
+    more `claim_<name>(...)`; pyvc proves every claim for all arguments satisfying `requires`."""
+    def deco(k):
+        c = Contract(f"lemma:{name}", list(params), kind="lemma")
+        c.sidecar = (k.__module__, k.__name__)
+        c.param_types = dict(param_types or {})
+        c.defaults = {}
+        c.trusted = False
+        c.note = note
+        c.clauses = [n for n in vars(k) if n.startswith("claim")]
+        c.has_requires = "requires" in vars(k)
+        c.exs = []
+        REG.contracts[c.target] = c
+        return k
+    return deco
+
+
 def inline(module, *quals):
     for q in quals:
         REG.inline.add(f"{module}:{q}")
@@ -177,3 +195,21 @@ def str_of_float(x):
 
 def tuple_len_is(x, n):
     return isinstance(x, tuple) and len(x) == n
+
+
+# ---- file-system model (symbolic only; pyvc/effects.py) ---------------------------------------------------------
+def _symbolic_only(name):
+    def f(*a):
+        raise RuntimeError(f"{name}() is only available in symbolic contracts")
+    f.__name__ = name
+    return f
+
+
+fs_trace = _symbolic_only("fs_trace")
+fs_text = _symbolic_only("fs_text")
+fs_readable = _symbolic_only("fs_readable")
+fs_writable = _symbolic_only("fs_writable")
+fs_islink = _symbolic_only("fs_islink")
+fs_exists = _symbolic_only("fs_exists")
+fs_op_ok = _symbolic_only("fs_op_ok")
+fs_op_started = _symbolic_only("fs_op_started")
